@@ -28,6 +28,9 @@ pub struct Bounds {
     pub adds_later: usize,
     /// max removals per step
     pub removals: usize,
+    /// narrow-and-deep passes: max additions / removals for each step (overrides the three above)
+    pub adds_by_level: Option<Vec<usize>>,
+    pub removals_by_level: Option<Vec<usize>>,
     pub shapes: Vec<Shape>,
     pub strategies: Vec<u8>,
     pub ghosts: bool,
@@ -44,6 +47,7 @@ impl Bounds {
         json!({
             "variants": self.variants, "adds_first_variant": self.adds_first, "adds_later_variants": self.adds_later,
             "removals_per_step": self.removals,
+            "additions_by_step": self.adds_by_level, "removals_by_step": self.removals_by_level,
             "shapes_size_align": self.shapes.iter().map(Shape::to_json).collect::<Vec<_>>(),
             "strategies": self.strategies.iter().map(|s| STRATEGIES[*s as usize]).collect::<Vec<_>>(),
             "ghost_datum_option": self.ghosts, "ghost_removed_late_option": self.ghosts && self.ghosts_late, "key_includes_id_ranks": self.with_ranks,
@@ -161,8 +165,16 @@ pub fn explore(b: &Bounds, oracle: &Oracle, deadline: Option<Instant>, threads: 
     };
     let seqs_first = sequences(&b.shapes, b.adds_first);
     let seqs_later = sequences(&b.shapes, b.adds_later);
+    let seqs_by_level: Vec<Vec<Vec<Shape>>> = b.adds_by_level.as_ref().map(|v| v.iter().map(|n| sequences(&b.shapes, *n)).collect()).unwrap_or_default();
     for level in 0..b.variants {
-        let seqs = if level == 0 { &seqs_first } else { &seqs_later };
+        let seqs = if let Some(s) = seqs_by_level.get(level) {
+            s
+        } else if level == 0 {
+            &seqs_first
+        } else {
+            &seqs_later
+        };
+        let removals = b.removals_by_level.as_ref().and_then(|v| v.get(level).copied()).unwrap_or(b.removals);
         // states first reached at this level: key -> smallest history reaching it (deterministic
         // representative whatever the thread interleaving)
         let level_new: Vec<Mutex<HashMap<Key, Vec<Step>>>> = (0..256).map(|_| Mutex::new(HashMap::new())).collect();
@@ -189,7 +201,7 @@ pub fn explore(b: &Bounds, oracle: &Oracle, deadline: Option<Instant>, threads: 
                             }
                         }
                         let (hist, m) = &frontier[i];
-                        let rems = subsets(*m, b.removals);
+                        let rems = subsets(*m, removals);
                         // (ghost shape, removed late)
                         let ghosts: Vec<(Option<Shape>, bool)> = if b.ghosts && b.ghosts_late {
                             vec![(None, false), (Some(Shape::new(4, 4)), false), (Some(Shape::new(4, 4)), true)]
